@@ -49,6 +49,9 @@ DictKinds == {"dict", "defaultdict", "ordereddict", "counter"}
 (* The scalar kind matrix (DESIGN appendix A).                             *)
 ScalarVerdict(tk, v) ==
   CASE tk = "any"   -> "A"
+    [] v.k = "bigint" ->     \* an int: accepted as int; too large for float / complex: must be refused, not overflow
+         IF tk = "int" THEN "A" ELSE IF tk \in {"float", "complex"} THEN "R"
+         ELSE IF tk \in {"decimal", "fraction"} THEN "D" ELSE "R"
     [] tk = "none"  -> IF v.k = "none" THEN "A" ELSE "R"
     [] tk = "bool"  -> IF v.k = "bool" THEN "A"
                        ELSE IF v.k = "int" /\ v.n \in {0, 1} THEN "D" ELSE "R"
@@ -112,7 +115,10 @@ LenOf(x) ==
 
 RECURSIVE Holds(_, _), HoldsAll(_, _, _), HoldsAny(_, _, _)
 Holds(c, x) ==
-  CASE c.k = "pos"    -> IF IsReal(x) THEN B3(NumLt(Fin(Zero), NumNum(x))) ELSE "X"
+  CASE x.k = "bigint" /\ c.k \notin {"utrue", "ufalse", "uraise", "not", "and", "or"} ->
+         (IF c.k \in {"pos", "nonneg", "finite"} THEN "T" ELSE IF c.k \in {"neg", "nonpos", "even"} THEN (IF c.k = "even" THEN "T" ELSE "F")
+          ELSE IF c.k = "ge" THEN "T" ELSE IF c.k = "le" THEN "F" ELSE "X")
+    [] c.k = "pos"    -> IF IsReal(x) THEN B3(NumLt(Fin(Zero), NumNum(x))) ELSE "X"
     [] c.k = "neg"    -> IF IsReal(x) THEN B3(NumLt(NumNum(x), Fin(Zero))) ELSE "X"
     [] c.k = "nonneg" -> IF IsReal(x) THEN B3(NumLeq(Fin(Zero), NumNum(x))) ELSE "X"
     [] c.k = "nonpos" -> IF IsReal(x) THEN B3(NumLeq(NumNum(x), Fin(Zero))) ELSE "X"
